@@ -84,7 +84,7 @@ package testscript
 //@   modifies F_S_testscript_TestScript_ttyin, F_S_testscript_TestScript_ttyout
 //@ func (*TestScript).exec
 //@   requires ts != nil && ts.envMap != nil
-//@   modifies F_S_testscript_TestScript_stdin, F_S_testscript_TestScript_stdinPty, F_S_testscript_TestScript_ttyin, F_S_testscript_TestScript_ttyout, F_S_exec_Cmd_*, F_S_strings_Builder_*, F_S_strings_Reader_*, H_Str, new H_*, gStarted, gReaped, gWaitedCmd
+//@   modifies F_S_testscript_TestScript_stdin, F_S_testscript_TestScript_stdinPty, F_S_testscript_TestScript_ttyin, F_S_testscript_TestScript_ttyout, F_S_exec_Cmd_*, F_S_strings_Builder_*, F_S_strings_Reader_*, H_Str, new H_*, gStarted, gReaped, gWaitedCmd, gRecv
 //@   ensures gStarted - gReaped == old(gStarted) - old(gReaped)
 //@   at call (*exec.Cmd).Start#1: requires c.Dir == ts.cd && len(c.Env) == len(ts.env) + 1 && (forall K {at(c.Env,K)} :: lo(c.Env) <= K && K < lo(c.Env) + len(ts.env) ==> sameStr(at(c.Env,K), at(ts.env, lo(ts.env) + K - lo(c.Env))))
 //@ extern github.com/rogpeppe/go-internal/internal/os/execpath.Look(file, getenv) (r, err)
@@ -111,7 +111,7 @@ package testscript
 //@ func waitOrStop
 //@   requires cmd != nil
 //@   allowpanic
-//@   modifies gReaped, gWaitedCmd
+//@   modifies gReaped, gWaitedCmd, gRecv
 //@   ensures gReaped == old(gReaped) + 1 && gWaitedCmd[cmd]
 //@   ensures forall p int {gWaitedCmd[p]} :: old(gWaitedCmd)[p] ==> gWaitedCmd[p]
 
@@ -146,7 +146,8 @@ package testscript
 //@ extern (github.com/rogpeppe/go-internal/testscript.T).Fatal(t, args)
 //@   noreturn
 //@ extern os.WriteFile(name, data, perm) (err)
-//@   modifies fsExists, fsData, fsSize, fsBytes, fsWrites
+//@   modifies fsExists, fsData, fsSize, fsBytes, fsWrites, gOpFailed
+//@   ensures gOpFailed == (old(gOpFailed) || err != nil)
 //@ extern github.com/rogpeppe/go-internal/txtar.Format(a) (r)
 //@   modifies new bytes
 
@@ -244,7 +245,7 @@ package testscript
 //@   requires ts != nil && ts.scriptFiles != nil && !ts.stopped && ts.scriptUpdates != nil && len(ts.background) == 0
 //@   nocall os.Environ
 //@   callee ts.params.Setup(env) (err): modifies F_S_testscript_Env_*, F_S_testscript_TestScript_deferred, H_Str, fs*, fd*, failBudget
-//@   modifies F_S_testscript_TestScript_workdir, F_S_testscript_TestScript_cd, F_S_testscript_TestScript_archive, F_S_testscript_TestScript_env, F_S_testscript_TestScript_envMap, F_S_testscript_TestScript_values, F_S_testscript_TestScript_deferred, F_S_testscript_Env_*, new F_S_txtar_Archive_*, H_*, fs*, fd*, M*, failBudget
+//@   modifies F_S_testscript_TestScript_workdir, F_S_testscript_TestScript_cd, F_S_testscript_TestScript_archive, F_S_testscript_TestScript_env, F_S_testscript_TestScript_envMap, F_S_testscript_TestScript_values, F_S_testscript_TestScript_deferred, F_S_testscript_Env_*, new F_S_txtar_Archive_*, H_*, fs*, fd*, M*, failBudget, gOpFailed
 //@   at call os.Getenv#1: requires key == "PATH"
 //@   at call field:ts.params.Setup#1: requires env != nil && 10 <= len(env.Vars) && len(env.Vars) <= 12 && sameStr(env.WorkDir, ts.workdir) && sameStr(env.Cd, ts.workdir) && env.ts == ts
 //@   at call field:ts.params.Setup#1: requires at(env.Vars, lo(env.Vars)+2) == "GOTRACEBACK=system" && at(env.Vars, lo(env.Vars)+8) == "$=$"
@@ -404,7 +405,7 @@ package testscript
 //@ extern path/filepath.WalkDir(root, fn) (err)
 //@   pure
 //@ func removeAll
-//@   modifies fsExists, gTreeRemoved
+//@   modifies fsExists, gTreeRemoved, gOpFailed
 //@   at call os.RemoveAll#1: requires path == dir
 //@   ensures gTreeRemoved[sid(dir)]
 
@@ -422,7 +423,7 @@ package testscript
 //@ func RunT$1$2
 //@   requires ts != nil
 //@   callee cancel(): pure
-//@   modifies fsExists, gTreeRemoved, gCleanup, failBudget, C_Int
+//@   modifies fsExists, gTreeRemoved, gCleanup, failBudget, C_Int, gOpFailed
 //@   at call testscript.removeAll#1: requires dir == ts.workdir && !p.TestWork && !C_Bool[testWork]
 //@   at call os.Remove#1: requires name == testTempDir && refCount == 0 && gTreeRemoved[sid(ts.workdir)]
 //@   ensures p.TestWork ==> refCount == old(refCount) && fsExists == old(fsExists)
@@ -438,12 +439,12 @@ package testscript
 //@   pure
 //@ func cmdExec$1
 //@   requires ts != nil && cmd != nil
-//@   modifies gReaped, gWaitedCmd
+//@   modifies gReaped, gWaitedCmd, gRecv
 //@   at call close#1: requires gWaitedCmd[cmd] && arg0 == wait
 //@ func (*TestScript).cmdExec
 //@   requires ts != nil && ts.envMap != nil
 //@   requires forall K {at(ts.background,K)} :: lo(ts.background) <= K && K < hi(ts.background) ==> at(ts.background,K).cmd != nil
-//@   modifies F_*, H_*, M*, gStarted, gReaped, gWaitedCmd
+//@   modifies F_*, H_*, M*, gStarted, gReaped, gWaitedCmd, gRecv
 //@   at call (*testscript.TestScript).Fatalf#0: requires gStarted - gReaped - len(ts.background) == old(gStarted) - old(gReaped) - old(len(ts.background))
 //@   ensures gStarted - gReaped - len(ts.background) == old(gStarted) - old(gReaped) - old(len(ts.background))
 //@   ensures forall K {at(ts.background,K)} :: lo(ts.background) <= K && K < hi(ts.background) ==> at(ts.background,K).cmd != nil
@@ -527,8 +528,8 @@ package testscript
 //@ func (*TestScript).cmdRm
 //@   requires ts != nil
 //@   modifies fsExists, gTreeRemoved, gOpFailed
-//@   loop 1: invariant -1 <= rangeindex && gOpFailed == old(gOpFailed)
-//@   ensures !neg && len(args) >= 1 && gOpFailed == old(gOpFailed)
+//@   loop 1: invariant -1 <= rangeindex
+//@   ensures !neg && len(args) >= 1
 //@ func (*TestScript).cmdSymlink
 //@   requires ts != nil
 //@   modifies fsExists, gOpFailed
